@@ -1,6 +1,6 @@
 SPECIFICATION Spec
 CONSTANTS
-  Spans = {250, 328, 329, 330, 340, 364, 365, 366, 367, 420}
+  Spans = {250, 328, 329, 330, 340, 364, 365, 366, 367, 400, 420}
   Classes = {"daily", "billing", "hourly"}
   StartSet <- StartsAll
 INVARIANT OracleSelfConsistent
